@@ -44,6 +44,10 @@ CHECKS = {
    technique="TLA+ umbrella spec (Pipeline.tla: ParseOk/ParseFail, correlate order, naming, write; Containment, NoRegistrationOfFailedFile, Terminates under fairness) model-checked with TLC; corrupted-file enumeration replayed differentially into FORD's parser/correlator under a watchdog",
    text="TLC checks on the pipeline model that a failed file is never registered, every corrupt file is reported, the observable of the valid files is unaffected (Containment) and the run terminates, and that the as-built deviation (print_error only prints) is visible to these invariants. The replay corrupts a valid source at every statement boundary (truncation), drops/adds END, misplaces CONTAINS, splices garbage and undecodable bytes, adds 13 malformed constructs and pairs of corrupt files, places the file before/between/after the valid files in the read order, and compares canonical tree and page URLs of the valid files and the diagnostics with the run without it; every run is under a 60 s watchdog.",
    note="One valid 3-file base project; default error settings. Files FORD accepts without any report are treated as ordinary sources (termination only). Trusted: TLC, canonical tree projection (vlib/tree.py), SIGALRM watchdog."),
+ "C03": dict(level="model_checking", ref="DESIGN.md 6/C03, 4.4, B.2",
+   technique="TLA+ specs (DocRoute.tla = reader mechanism composed with docstring consumption; Admonition.tla = transliterated note-box rewriting) model-checked with TLC; generated unit bodies and comment bodies replayed into FORD's parser, AdmonitionPreprocessor and markdown conversion",
+   text="TLC checks EachDocOnItsEntity / NoLeakToContainer for every sequence of <=2-3 documented entities x {simple, block} x 10 comment placements (after inline/own line, before, the two alternate block forms, combinations) x gaps x separators on the reader+parser mechanism model, and ErrorsReported / WordsPreservedInOrder / StartsBecomeNotes for every comment body of <=4-5 lines over 20 line shapes on the rewriting model. Every routing case is rendered as Fortran in 4 contexts (module variables/types/interfaces, module procedures, type components, dummy arguments) and 2 marker sets and parsed by the real FORD (each entity's doc_list must hold exactly its tracer words in order, nothing leaks to the container); every body is run through the real AdmonitionPreprocessor (output compared line by line with the model) and through MetaMarkdown (rendered words once, in order).",
+   note="Bounded as stated; HTML-level placement of the rendered documentation on generated pages is covered by C05/C10 tracer checks, not here. Trusted: TLC, python-markdown, the renderers."),
 }
 
 NOT_YET = {}
